@@ -245,11 +245,13 @@ def run_case(case):
 
     # ---- copies of a built, unprocessed model
     for i, (P, pset, instr) in enumerate(built):
-        for cfg in ("scenario", "programs", "plain"):
+        for cfg in ("programs", "scenario", "plain"):
             if (i, cfg) not in seen or seen[(i, cfg)][0] != "arrays":
                 continue
+            own = {"parset": parset_for(P, cfg), "progset": pset if cfg == "programs" else None, "instructions": instr if cfg == "programs" else None, "framework": P.framework, "settings": P.settings}
+            own_before = {k: digest.snapshot(v) for k, v in own.items()}
             try:
-                m = M.Model(P.settings, P.framework, parset_for(P, cfg), pset if cfg == "programs" else None, instr if cfg == "programs" else None)
+                m = M.Model(P.settings, P.framework, own["parset"], own["progset"], own["instructions"])
             except Exception:
                 continue
             variants = {}
@@ -295,6 +297,35 @@ def run_case(case):
                     R.ok("copies-run-identically")
             except Exception as e:
                 R.bad("copies-run-identically", "C08:result-save-load-fails[%s]" % type(e).__name__, {"error": str(e)[:300]})
+            # a directly constructed model (the path the optimizer uses) owns copies of what it was given: editing the
+            # model's own instructions / program set / framework, as the optimizer does after its last iteration, must
+            # leave the caller's objects unchanged
+            try:
+                if m.program_instructions is not None:
+                    m.program_instructions.start_year = float(m.program_instructions.start_year) + 1.0
+                    for ts in m.program_instructions.alloc.values():
+                        ts.insert(2031.5, 12345.0)
+                    for ts in m.program_instructions.coverage.values():
+                        ts.insert(2031.5, 0.123)
+                if m.progset is not None:
+                    for prog in m.progset.programs.values():
+                        prog.unit_cost.insert(2031.5, 77.0)
+                        prog.target_pops = list(prog.target_pops)[:1]
+                    for co in m.progset.covouts.values():
+                        co.baseline = float(co.baseline) + 0.5
+                m.framework.pars.iloc[0, m.framework.pars.columns.get_loc("display name")] = "edited by the model"
+                R.count("model_side_edits")
+            except Exception as e:
+                R.count("model_side_edit_failed[%s]" % type(e).__name__)
+            for k, v in own.items():
+                if v is None:
+                    continue
+                R.count("input_snapshots_compared")
+                a_ = digest.snapshot(v)
+                if a_ != own_before[k]:
+                    R.bad("inputs-unchanged", "C08:model-shares-state-with-caller[%s]" % k, {"op": [i, cfg], "difference": digest.first_difference(own_before[k], a_)})
+                else:
+                    R.ok("inputs-unchanged")
             break  # one configuration per project is enough for the copy checks
 
     has_prog = any(k[1] == "programs" for k in seen)
